@@ -2,25 +2,32 @@
 import itertools, random
 from vlib import Case
 
-RULE = ("controlled schedules (real threads, one runnable at a time; scheduling points: every acquisition of the pool mutex, every "
-        "condition-variable wake-up, every join, the destructor's lifetime wait) of pools with 1-3 workers and 1-3 client threads issuing "
-        "1-6 submissions of the six kinds (co_await pool, co_await pool(awaitable), run(fn), run_detached, resume(suspend_point), run(async)), "
-        "job bodies that submit again or call stop() on their own pool, explicit stop() from clients, destructor at the end; random, bursty, "
-        "workers-first and clients-first schedules; thorough adds every schedule prefix of length 8 over 3 choices for small configurations; "
-        "non-trivial = at least 3 thread switches in the executed trace and (a stop()/self-stop races with a submission or >= 2 submissions); "
-        "distinct = distinct (program, schedule)")
+RULE = ("controlled schedules (real threads, one runnable at a time; scheduling points: every acquisition of the pool mutex incl. the "
+        "is_stopped/any_enqueued queries, every condition-variable wake-up, every join, the unlocked read of thread_pool::current, the "
+        "destructor's lifetime wait) of pools with 1-3 workers and 1-3 client threads issuing 1-6 submissions of the six kinds (co_await pool, "
+        "co_await pool(awaitable), run(fn), run_detached, resume(suspend_point), run(async)) whose job bodies are lists of up to 4 pool "
+        "operations (submit again / run_detached from a worker, stop() on the own pool, current::is_stopped(), current::any_enqueued(), "
+        "co_await thread_pool::current()), explicit stop() from clients, client threads calling worker(), destructor at the end (racing "
+        "with job-issued stops); random, bursty, workers-first and clients-first schedules; every schedule prefix of length 5 over 3 choices "
+        "for the two destructor-vs-job-stop configurations; thorough adds every prefix of length 8 for 9 small configurations; non-trivial = "
+        "at least 3 thread switches in the executed trace and (a stop()/self-stop races with a submission or >= 2 submissions); distinct = "
+        "distinct (program, schedule)")
 SCOPE = ("thread_pool constructor/worker()/stop()/~thread_pool/enqueue(), co_awaiter (unique_ptr deleter), enqueue_awaiter, resume(suspend_point), "
-         "run(fn), run_detached(fn), run(async), function<void()> ownership of a rejected / swapped-out closure")
+         "run(fn), run_detached(fn), run(async), current::operator co_await/is_stopped/any_enqueued, is_stopped(), any_enqueued(), "
+         "function<void()> ownership of a rejected / swapped-out closure")
 ASSUMPTIONS = [
-    "object lifetime: ~thread_pool starts after every call made by another client thread has returned and when no stop() issued by a job is "
-    "pending, in progress or still queued (otherwise a destructor racing with a job's stop() finds the worker list already swapped out and "
-    "returns while workers still use the mutex; see notes/C11.md, observation O1)",
-    "a job that called stop() on its own pool does not touch the pool afterwards (its worker is detached)",
-    "interleaving at the granularity of critical sections of the pool mutex; sequentially consistent; std::condition_variable modelled by "
-    "notification tokens (any sleeper may take a token: covers every choice of notify_one and spurious wake-ups that find the predicate false)",
-    "job bodies of the bare-handle kinds (resume(suspend_point), pool(awaitable)) do not call stop()",
+    "object lifetime: ~thread_pool starts after every call made by another client thread has returned (jobs, including jobs that call "
+    "stop(), may be running: the destructor waits for them)",
+    "a job that called stop() on its own pool does not touch the pool afterwards (its worker is detached); bodies end with stop()",
+    "a client thread that calls worker() relies on somebody else stopping the pool; if nobody does, the client program deadlocks itself "
+    "(`user_stuck` in PoolLive.v) - the generator always adds such a stop",
+    "interleaving at the granularity of critical sections of the pool mutex; sequentially consistent (the unlocked read of _exit in "
+    "current::await_ready is a data race in the C++ sense; it is modelled as one atomic step); std::condition_variable modelled: notify_all "
+    "flags the threads sleeping at that moment, notify_one adds an anonymous token (any sleeper may take it: covers every choice and "
+    "spurious wake-ups that find the predicate false)",
 ]
-TRUSTED_EXTRA = ["harness/ctl_pool.cpp maps std::condition_variable / std::thread to observing substitutes while compiling thread_pool.h"]
+TRUSTED_EXTRA = ["harness/ctl_pool.cpp maps std::condition_variable / std::thread to observing substitutes while compiling thread_pool.h",
+                 "job bodies run with the thread's coroutine ready queue switched off (a cancelled coroutine is resumed at once): the ready queue is C05's subject"]
 
 KINDS = [0, 1, 2, 3, 4, 5]
 # body actions: 0..5 submit a closure of that kind, 6 stop() (last), 7 is_stopped(), 8 any_enqueued(), 9 co_await current()
@@ -98,8 +105,13 @@ def gen_prog(rng):
         prog.insert(rng.randrange(len(prog) + 1), ('x', rng.randrange(m)))
     # an external thread becomes a worker; client 0 stops the pool at the end so that worker() returns
     if m > 1 and rng.random() < 0.25:
-        prog.insert(rng.randrange(len(prog) + 1), ('w', rng.randrange(1, m)))
-        prog.append(('x', 0))
+        if rng.random() < 0.7:
+            prog.insert(rng.randrange(len(prog) + 1), ('w', rng.randrange(1, m)))
+            prog.append(('x', 0))
+        else:
+            # client 0 itself works in the pool until another client stops it, then destroys it
+            prog.insert(rng.randrange(len(prog) + 1), ('w', 0))
+            prog.append(('x', rng.randrange(1, m)))
     return m, prog
 
 
@@ -119,6 +131,9 @@ def gen(seed, tier):
     # destructor against a stop() issued by a job: the destructor must wait for that stop
     for pre in itertools.product(range(3), repeat=5):
         cases.append(mk("d%d" % b, 2, [('s', 0, 3, [6]), ('s', 0, 3, [])], list(pre) + [0] * 4)); b += 1
+    # a client thread that worked in the pool (worker()) destroys it while a job-issued stop() is still joining
+    for pre in itertools.product(range(3), repeat=5):
+        cases.append(mk("e%d" % b, 2, [('s', 0, 3, [6]), ('s', 0, 3, []), ('w', 0)], list(pre) + [1, 2, 0, 1, 2, 0])); b += 1
     for i in range(n_cases):
         n = rng.choice([1, 1, 2, 2, 3])
         m, prog = gen_prog(rng)
@@ -147,6 +162,20 @@ def gen(seed, tier):
             for pre in itertools.product(range(3), repeat=8):
                 cases.append(mk("x%d" % j, n, prog, pre)); j += 1
     return cases
+
+
+def close_case(c):
+    """a client thread that calls worker() needs somebody else to stop the pool (otherwise the client program deadlocks itself,
+    which is not the pool's fault): keep shrunk cases inside the class of programs the property speaks about"""
+    ops = [list(o) for o in c.ops]
+    workers = [o[1] for o in ops if len(o) == 2 and o[0] == 4 and 0 <= o[1] <= 2]
+    if workers:
+        last_w = max(i for i, o in enumerate(ops) if len(o) == 2 and o[0] == 4)
+        cl = ops[last_w][1]
+        if not any(len(o) == 2 and o[0] == 3 and o[1] != cl and 0 <= o[1] <= 2 for o in ops[last_w:]):
+            sched = [o for o in ops if o and o[0] == 9]
+            ops = [o for o in ops if not (o and o[0] == 9)] + [[3, 1 if cl == 0 else 0]] + sched
+    return Case(c.engine, c.name, ops, c.meta)
 
 
 def canon(obs):
